@@ -28,7 +28,11 @@ Fixpoint zinsert (x : Z) (l : list Z) : list Z :=
 Definition uvals (a : list Z) : list Z := fold_right zinsert [] a.
 
 (* container[val] : number of positions holding val *)
-Definition cnt (v : Z) (a : list Z) : nat := count_occ Z.eq_dec a v.
+Fixpoint cnt (v : Z) (a : list Z) : nat :=
+  match a with
+  | [] => 0
+  | x :: r => if Z.eqb x v then S (cnt v r) else cnt v r
+  end.
 
 Definition numba_unique (a : list Z) : list Z * list nat :=
   let u := uvals a in (u, map (fun v => cnt v a) u).
